@@ -40,6 +40,7 @@ from pox.openflow.util import make_type_to_unpacker_table
 from pox.openflow.flow_table import FlowTable, TableEntry
 from pox.lib.packet import *
 
+import copy
 import logging
 import struct
 import time
@@ -561,15 +562,20 @@ class SoftwareSwitchBase (object):
     else:
       self.port_stats[in_port].rx_bytes += len(packet.pack()) # Expensive
 
-    self._lookup_packet(packet, in_port, packet_data)
+    self._lookup_packet(packet, in_port, packet_data, received = True)
 
-  def _lookup_packet (self, packet, in_port, packet_data = None):
+  def _lookup_packet (self, packet, in_port, packet_data = None,
+                      received = False):
     """
     look a packet up in the flow table and process it accordingly
 
     This is the part of rx_packet() which is shared with output to
     OFPP_TABLE: the packet has not been received again, so the receive
     checks and the receive counters do not apply.
+
+    received is True when called from rx_packet(); otherwise the packet
+    comes from an output action, and the actions which follow that one
+    may go on to modify it.
     """
     self._lookup_count += 1
     entry = self.table.entry_for_packet(packet, in_port)
@@ -582,7 +588,9 @@ class SoftwareSwitchBase (object):
       port = self.ports.get(in_port)
       if port is not None and port.config & OFPPC_NO_PACKET_IN:
         return
-      buffer_id = self._buffer_packet(packet, in_port)
+      # A buffer ID stands for the packet as it is now
+      buffer_id = self._buffer_packet(packet if received
+                                      else copy.deepcopy(packet), in_port)
       if packet_data is None:
         packet_data = packet.pack()
       self.send_packet_in(in_port, buffer_id, packet_data,
@@ -732,7 +740,9 @@ class SoftwareSwitchBase (object):
         if no == in_port: continue
         real_send(port)
     elif out_port == OFPP_CONTROLLER:
-      buffer_id = self._buffer_packet(packet, in_port)
+      # The actions which follow may go on to modify the packet, but a buffer
+      # ID stands for the packet as it is now (as shown in the packet-in)
+      buffer_id = self._buffer_packet(copy.deepcopy(packet), in_port)
       # Should we honor OFPPC_NO_PACKET_IN here?
       self.send_packet_in(in_port, buffer_id, packet, reason=OFPR_ACTION,
                           data_length=max_len)
